@@ -6,13 +6,15 @@ func init() {
 	register(&Prop{
 		ID: "C07", Level: "exploration", Floor: 6000,
 		Rule: "a case = one registration message (a vector of 24 factor levels: message fields, registrar overrides, station configuration, liveness verdict, delivery count) " +
-			"pushed through the real parseRegMessage + ingestRegistration (monitor table) or the real HandleRegUpdates worker pool (monitor pipeline); " +
+			"pushed through the real parseRegMessage + ingestRegistration (monitor table) or the real HandleRegUpdates worker pool (monitor pipeline), or one delivery of a reload sequence " +
+			"(monitor reload: deliveries interleaved with configuration reloads through the real ParseConfig + OnReload, judged against the configuration in force); " +
 			"it is non-trivial when the reference expects admission for one of its families or the station actually built a registration for a family on which at most one " +
 			"message-level condition fails (so the verdict was made by the ingest procedure, not by absent support flags); distinct_nontrivial = distinct factor vectors of that kind",
 		Assumptions: []string{
 			"'complete' = registration payload present; a message without shared secret or source, a registrant address that is not 4/16 bytes (IPv6 half), an IPv6 override that is not 16 bytes and the IPv6 half of an all-IPv4 generation are recorded but not judged (the statement is silent)",
 			"'pre-scanned by another station' = the prescanned flag of the message; the covert policy is exercised with literal addresses and a blocklisted domain only (name resolution is C06's subject)",
 			"the absence of a share request is concluded only after a stack scan shows no goroutine in tryShareRegistrationOverAPI / executeHTTPRequest / handleConnectingTpReg; a batch that does not quiesce within 60 s is inconclusive",
+			"reload: address family toggles, sharing and transports are not reloadable (OnReload documents that) and stay constant within a sequence; whether a reload re-opens the decision on a registration the station already holds is not judged",
 			"announcements are attributed by strict sequencing (table) or by phantoms pinned through registrar overrides (pipeline); the pipeline is fed so that the station's load shedding never triggers",
 		},
 		Stages: []Stage{
